@@ -3,7 +3,7 @@ over exact rationals.
 
 T1  stock <- flow <- constant                       (constants: constant;  initial: s0)
 T2  stockA -move-> stockB, gain = k*lookup(time,tbl), move = gain - drain*lookup(time,tbl2)   (biflow, converter, two named tables)
-T3  tank initialised from constant `init`, outflow leak = max(0, rate - threshold), half = tank/2 (converter on a stock)
+T3  tank initialised from constant `init`, outflow leak = max(0, net(rate)) with the user function net(x) = x - threshold, half = tank/2 (converter on a stock)
 T5  pile <- lagged = delay(pace, 1.0) <- constant pace     (a look-back function on a constant)
 
 All default parameters are dyadic (k/8) so that the real code and the rational reference
@@ -96,7 +96,10 @@ def define(m, template, constants=None, points=None, initial=None):
         thr.equation = float(c["threshold"])
         half = m.converter("half")
         tank.initial_value = init
-        leak.equation = rate - thr
+        # the threshold enters through the BODY of a user function (the model handle it is evaluated with), not through anything
+        # the equation names: a scenario's function must read that scenario's model
+        net = m.function("net", lambda model, t, x: x - model.evaluate_equation("threshold", t))
+        leak.equation = net(rate)
         tank.equation = -leak
         half.equation = tank * 0.5          # a converter that depends on a stock
     elif template == "T5":
